@@ -22,7 +22,7 @@
 use std::{borrow::Cow, collections::BTreeMap};
 
 use aranya_crypto::{
-    keystore::memstore::MemStore, DeviceId, EncryptionKey, IdentityKey, Identified as _, KeyStoreExt as _, SigningKey,
+    keystore::memstore::MemStore, DeviceId, EncryptionKey, IdentityKey, KeyStoreExt as _, SigningKey,
 };
 use aranya_crypto_ffi::Ffi as CryptoFfi;
 use aranya_device_ffi::FfiDevice;
@@ -225,6 +225,14 @@ impl Replica {
     /// One sync delivery: a transaction with one `add_commands` call; committed if it succeeded,
     /// dropped otherwise (as the repository's syncers do). Returns the number of commands added.
     fn deliver(&mut self, graph: GraphId, cmds: &[Wire]) -> Result<usize, String> {
+        // a panic on peer input is an outcome of its own, not a refusal
+        match mcx::catch(|| self.deliver_inner(graph, cmds)) {
+            Ok(r) => r,
+            Err(msg) => Err(format!("PANIC: {msg}")),
+        }
+    }
+
+    fn deliver_inner(&mut self, graph: GraphId, cmds: &[Wire]) -> Result<usize, String> {
         let mut trx = self.client.transaction(graph);
         let n = self.client.add_commands(&mut trx, &mut self.sink, cmds, &mut self.buffers, MemSpill::new).map_err(|e| format!("add_commands: {e}"))?;
         self.client.commit(trx, &mut self.sink, &mut self.buffers, MemSpill::new).map_err(|e| format!("commit: {e}"))?;
@@ -554,23 +562,31 @@ fn tampers(h: &Honest, ci: usize, present: &[usize], thorough: bool) -> Vec<Tamp
     let kind = std::str::from_utf8(&d[lay.kind.0..lay.kind.1]).unwrap().to_string();
     let payload = d[lay.payload.0..lay.payload.1].to_vec();
     let sig = d[lay.sig.0..lay.sig.1].to_vec();
-    let mut add_data = |class: &'static str, name: String, data: Option<Vec<u8>>| {
-        if let Some(data) = data {
+    let mk = |data: Option<Vec<u8>>| -> Option<Wire> {
+        data.map(|d| {
             let mut x = w.clone();
-            x.data = data;
-            add(class, name, x, true);
-        }
+            x.data = d;
+            x
+        })
     };
     for (i, dev) in h.dev_ids.iter().enumerate() {
         if *dev != author {
-            add_data("author", format!("author:=device{i}"), encode(dev, &kind, &payload, &sig));
+            if let Some(x) = mk(encode(dev, &kind, &payload, &sig)) {
+                add("author", format!("author:=device{i}"), x, true);
+            }
         }
     }
-    add_data("author", "author:=unregistered".into(), encode(&[0x55; 32], &kind, &payload, &sig));
-    add_data("author", "author:=default".into(), encode(&[0; 32], &kind, &payload, &sig));
+    if let Some(x) = mk(encode(&[0x55; 32], &kind, &payload, &sig)) {
+        add("author", "author:=unregistered".into(), x, true);
+    }
+    if let Some(x) = mk(encode(&[0; 32], &kind, &payload, &sig)) {
+        add("author", "author:=default".into(), x, true);
+    }
     for k in ["Init", "AddDevice", "SetCounter", "IncrementCounter", "GetCounter", "Nope", &kind.to_lowercase(), &format!("{kind}x")] {
         if k != kind {
-            add_data("kind", format!("kind:={k}"), encode(&author, k, &payload, &sig));
+            if let Some(x) = mk(encode(&author, k, &payload, &sig)) {
+                add("kind", format!("kind:={k}"), x, true);
+            }
         }
     }
     for j in 0..h.cmds.len() {
@@ -584,9 +600,15 @@ fn tampers(h: &Honest, ci: usize, present: &[usize], thorough: bool) -> Vec<Tamp
         let okind = std::str::from_utf8(&od[ol.kind.0..ol.kind.1]).unwrap().to_string();
         let opayload = &od[ol.payload.0..ol.payload.1];
         let osig = &od[ol.sig.0..ol.sig.1];
-        add_data("payload", format!("fields:=c{j}"), encode(&author, &kind, opayload, &sig));
-        add_data("signature", format!("signature:=c{j}"), encode(&author, &kind, &payload, osig));
-        add_data("swap", format!("kind+fields:=c{j}"), encode(&author, &okind, opayload, &sig));
+        if let Some(x) = mk(encode(&author, &kind, opayload, &sig)) {
+            add("payload", format!("fields:=c{j}"), x, true);
+        }
+        if let Some(x) = mk(encode(&author, &kind, &payload, osig)) {
+            add("signature", format!("signature:=c{j}"), x, true);
+        }
+        if let Some(x) = mk(encode(&author, &okind, opayload, &sig)) {
+            add("swap", format!("kind+fields:=c{j}"), x, true);
+        }
         // signature and id swapped in from another honest command
         if let Some(data) = encode(&author, &kind, &payload, osig) {
             let mut x = w.clone();
@@ -727,6 +749,16 @@ fn run_case(ctx: &Ctx, h: &Honest, case: &Case) -> CaseOut {
     };
     t.outcome(&format!("{scope}:{}:{outcome}", tam.class));
     let refused = !matches!(res, Ok(n) if n > 0);
+    if let Err(e) = &res {
+        if let Some(msg) = e.strip_prefix("PANIC: ") {
+            t.count("panics_on_modified_input", 1);
+            t.violation(
+                format!("panic:{msg}"),
+                format!("delivering a modified command panicked the replica instead of refusing it (first seen: {what}); location {}", mcx::last_panic_location()),
+                replay(),
+            );
+        }
+    }
     if equiv {
         t.count("equivalent_encoding_cases", 1);
     } else if tam.bound {
@@ -788,6 +820,7 @@ fn run_case(ctx: &Ctx, h: &Honest, case: &Case) -> CaseOut {
 
 pub fn run(args: &Args) {
     let mut rep = Report::new(args, Level::ModelChecking);
+    mcx::quiet_panics();
     let replay_key = replay_key(args);
     let thorough = args.tier == Tier::Thorough;
     let module = compile_module();
